@@ -339,16 +339,17 @@ class C10(fw.Property):
                   "by running both on the same event scripts (every datagram, handler start/cancel, delivery, failure, loop exception and the clock compared).")
     level_note = ("PARTIAL: 'acknowledged at least once' (the opportunity and its timer persist until answer or timer consumes them) is proved per step only, not "
                   "over histories. Side condition O3 (token reused while the request is unacknowledged) is explicit in the theorems and refuted without it. "
-                  "Three open findings are modelled faithfully (refuted-witnesses in Props): error responses ignore No-Response; suppressed response to a CON request "
-                  "received on multicast raises TypeError and the request is never acknowledged; give-up while a multicast request is pending raises AttributeError "
-                  "in the loop. Trusted: Coq kernel + vm_compute; the hand-written model (validated by correspondence only); the virtual-time loop as ideal timer "
+                  "Three defects found by this check (error responses ignored No-Response; suppressed response to a CON request received on multicast raised "
+                  "TypeError and the request was never acknowledged; give-up while a multicast request is pending raised AttributeError in the loop) are fixed in "
+                  "/repo (3a77ec2, 95af16f, a3add01); the model follows the fixed code, the oracle keeps their signatures, reverting each commit is caught. "
+                  "Trusted: Coq kernel + vm_compute; the hand-written model (validated by correspondence only); the virtual-time loop as ideal timer "
                   "service; recording transport. Not modelled: shutdown branches, transport errors, server-side observe, blockwise, message-id wrap-around.")
     rule = ("streams: table = one cell of type x code class x token known x unicast/multicast x handler/No-Response with random context and timing; "
             "cells = the full table enumerated; piggy = request to a slow handler answered around EMPTY_ACK_DELAY (99999/100000/100001 us, timer before/after); "
             "scenario = adversarial interleavings over small mid/token spaces (duplicates, token reuse, overriding requests, backlog, give-up); "
             "giveup = an unacknowledged CON of ours retransmitted until give-up with a multicast request pending / a backlogged CON / a running handler. "
             "Non-trivial = at least one datagram was sent by the stack; distinct by full script.")
-    trusted_base = ["hand-written Model/C10.v (validated by all four correspondence streams on every run)",
+    trusted_base = ["hand-written Model/C10.v (validated by all correspondence streams (cells, table, piggy, scenario, giveup, corpus) on every run)",
                     "harness: virtual-time loop (ideal timers), recording message interface, random pinned (mid0 = token0 = 0, ACK_TIMEOUT factor 1.0)"]
     assumptions = ["handlers answer once (no observe on the server side); shutdown and transport errors are C18's; blockwise not exercised",
                    "the 16-bit message-id counter does not wrap within the lifetime of an exchange"]
@@ -421,10 +422,10 @@ def oracle(evs, res):
         where = "event %d: %s %s mid %d token %r from peer %d (%s)" % (i, MT[t], cls, mid, tok, peer, "multicast" if local == 2 else "unicast")
         if cls == "request":
             key = (peer, mid)
-            if key in ambiguous: reqs.append({"cut": i, "peer": peer, "mid": mid}); continue
+            if key in ambiguous: reqs.append({"cut": i, "peer": peer, "mid": mid, "tok": tok}); continue
             if key in seen and now - seen[key][0] <= LIFETIME:
                 if now - seen[key][0] == LIFETIME:      # exactly at the boundary: whether the entry has expired depends on timer order; judge nothing
-                    ambiguous.add(key); reqs.append({"cut": i, "peer": peer, "mid": mid}); continue
+                    ambiguous.add(key); reqs.append({"cut": i, "peer": peer, "mid": mid, "tok": tok}); continue
                 if r["h"]: return ("C10:duplicate-processed-again", where + " is a duplicate but a handler was started")
                 if t != CON and r["send"]: return ("C10:duplicate-answered", where + " is a non-confirmable duplicate but %r was sent" % r["send"])
                 continue
@@ -471,7 +472,7 @@ def oracle(evs, res):
             if j > i and R2["peer"] == peer and R2["mid"] == mid: end = min(end, j)
         where = "%s request (event %d) mid %d token %r from peer %d" % ("CON" if R["con"] else "NON", i, mid, tok, peer)
         # side condition (DESIGN.md O3): the peer reuses the token in a new request while this one is not yet acknowledged
-        o3 = next((R2["i"] for R2 in reqs if "i" in R2 and R2["i"] > i and R2["peer"] == peer and R2["tok"] == tok), None)
+        o3 = next((R2.get("i", R2.get("cut")) for R2 in reqs if R2.get("i", R2.get("cut")) > i and R2["peer"] == peer and R2["tok"] == tok), None)   # unjudged boundary messages count too
         fresh_req_events = set(R2["i"] for R2 in reqs if "i" in R2)
         acks = [(j, res[j]["t"], s) for j in range(i, end) if j == i or evs[j][0] != "recv" or j in fresh_req_events
                 for s in res[j]["send"] if s[2] == ACK and s[0] == peer and s[4] == mid]
